@@ -234,9 +234,40 @@ class TwinOracle(Oracle):
                     break
         except Exception:
             culprit = None
+        via = self.via(culprit, steps, live, twv)
         if culprit is None:
-            return "%s/stale/%s/edit=?" % (self.prefix, kind), None
-        return "%s/stale/%s/edit=%s" % (self.prefix, kind, classify_edit(culprit)), culprit
+            return "%s/stale/via=%s/edit=?/%s" % (self.prefix, via, kind), None
+        return "%s/stale/via=%s/edit=%s/%s" % (self.prefix, via, classify_edit(culprit), kind), culprit
+
+    def via(self, culprit, steps, live, twv):
+        """A structural feature of the history that names the dependency path the stale value went through
+        (used to keep known findings narrow)."""
+        def mentions_model_path(name):
+            found = []
+
+            def walk(e):
+                if isinstance(e, list):
+                    if len(e) >= 3 and e[0] in ("a", "call") and isinstance(e[1], list) and len(e[1]) >= 2 \
+                            and e[1][0] == "_model" and e[1][1] == name:
+                        found.append(1)
+                    for x in e:
+                        walk(x)
+                elif isinstance(e, dict):
+                    for x in e.values():
+                        walk(x)
+            for s in steps:
+                if s.get("formula") and isinstance(s["formula"], dict):
+                    walk(s["formula"].get("ret"))
+                    walk(s["formula"].get("lets"))
+            return bool(found)
+        if culprit is not None and culprit["op"] in ("rename_space", "del_space"):
+            top = culprit["space"].split(".")[0]
+            if mentions_model_path(top):
+                return "model-attr-path-to-space"
+        if "DeletedObjectError" in (live.get("exc"), twv.get("exc")):
+            if any(s["op"] == "set_ref" and s.get("value", {}).get("t") == "obj" for s in steps):
+                return "dangling-object-reference"
+        return "other"
 
 
 def classify_edit(op):
